@@ -50,7 +50,9 @@ def run(eng, ctx):
     rv = eng.repo.func(eng.socket_receiver)
     ctx.touch(func=dq, file=eng.repo.relpath(f.module))
     ctx.touch(func=rv.qualname)
-    se = eng.symeval(dq)
+    from ..engine import _no_self_calls_unroll
+
+    se = eng.symeval(dq, unroll=_no_self_calls_unroll)
     segp = ("param", f.params[1]) if len(f.params) > 1 else None
     streams = [e.term for e in se.effects if e.kind == "call" and "BytesIO" in show(e.term[2]) and e.term[3] == (segp,)]
     loc = eng.loc(f, f.node)
@@ -161,7 +163,7 @@ def run(eng, ctx):
         okarg = a is not None and a[0] == "bin" and a[1] == "+" and a[2][0] in ("field", "fieldv") and a[2][1] == pfield and a[3][0] == "call" and a[3][2][0] == "attr" and a[3][2][2] == "recv"
         ctx.check(ok, "C12.D4", rv.qualname, "partial result stored", expected="self.<partial> = dechunk(...)[1]", found=f"{len(pstores)} store(s)", **eng.loc(rv, e.node))
         ctx.check(bool(okarg), "C12.D4", rv.qualname, "carry-in order", expected="dechunk(self.<partial> + data)", found=show(a)[:80] if a else "-", **eng.loc(rv, e.node))
-        bst = [s for s in sv.effects if s.kind == "aug" and s.term[0] == "bin" and s.term[3] == ("proj", e.term, 0)]
+        bst = [s for s in sv.effects if s.kind == "aug" and s.term[0] == "bin" and any(leaf == ("proj", e.term, 0) for _, leaf in leaves(s.term[3]))]
         ctx.check(len(bst) == 1, "C12.D4", rv.qualname, "decoded part appended", expected="buffer += dechunk(...)[0]", found=f"{len(bst)}", **eng.loc(rv, e.node))
         enc = [c for c, p in e.guards if c[0] == "bin" and c[1] == "&"]
         CH = eng.ce.value("rtcmtypes_core", "ENCODE_CHUNKED")
